@@ -86,7 +86,10 @@ where
             Ok(Some(Err(s))) => Ev::Err(s),
             Ok(Some(Ok(f))) => {
                 if f.is_data() {
-                    Ev::Data(f.into_data().unwrap().to_vec())
+                    // never materialise absurdly large frames (the 4 GiB case): keep a bounded prefix
+                    let d = f.into_data().unwrap();
+                    let keep = d.len().min(64 << 20);
+                    Ev::Data(d[..keep].to_vec())
                 } else {
                     Ev::Trailers(f.into_trailers().unwrap())
                 }
